@@ -19,7 +19,7 @@ def cliCompText (c : Completion) : String :=
 def cliStatus (c : Client) (res : String) : Client × String :=
   let so := match c.stopOpts with | none => "00" | some false => "10" | some true => "11"
   ({ c with events := [], comps := [] },
-   s!"res={res} cur={c.current.name} desired={c.desired.name} stopopts={so} proto={c.eng.state.name} events={",".intercalate c.events} comps={",".intercalate (c.comps.map (fun (i, x) => s!"{i}:{cliCompText x}"))}")
+   s!"res={res} cur={c.current.name} desired={c.desired.name} stopopts={so} proto={c.eng.state.name} events={",".intercalate (c.events.map CEvent.text)} comps={",".intercalate (c.comps.map (fun (i, x) => s!"{i}:{cliCompText x}"))}")
 
 def cliDispatch (st : CliSession) (verb head payload : String) : CliSession × String :=
   let (_, kv) := splitKv head
